@@ -147,6 +147,10 @@ mod value_type;
 mod version;
 mod vlog;
 
+#[cfg(feature = "verif")]
+#[doc(hidden)]
+pub mod verif;
+
 /// User defined key (byte array)
 pub type UserKey = Slice;
 
